@@ -85,8 +85,15 @@ func (AI) Generate(seed uint64, tier string) *core.Scenario {
 				haveB2 = true
 				b.Ops = append(b.Ops, AIOp{S: s, Kind: "newbranch", Br: "b2"})
 			}
-		case x < 97:
+		case x < 96:
 			b.Ops = append(b.Ops, AIOp{S: s, Kind: "del", T: t})
+		case x < 97:
+			// the table is dropped on the session's branch (and made again a little later): the branches
+			// that keep it go on with their sequence
+			b.Ops = append(b.Ops, AIOp{S: s, Kind: "droptable", T: t})
+			if r.Chance(2, 3) {
+				b.Ops = append(b.Ops, AIOp{S: r.Intn(b.NSess), Kind: "ins", Form: "null", T: t}, AIOp{S: s, Kind: "createtable", T: t})
+			}
 		case x < 99:
 			b.Ops = append(b.Ops, AIOp{Kind: "restart"})
 		}
@@ -168,16 +175,26 @@ func (AI) Execute(t *testing.T, sc *core.Scenario) *core.Result {
 	type gen struct {
 		val, step, sess int
 		branch          string
+		rolledBack      bool
+		// the value was held by a transaction still open when the table was dropped on another branch
+		openAtDrop bool
 	}
 	// per table, per server lifetime
 	var seen [2]map[int]gen
 	var maxGen, maxExplicit [2]int
+	var explicitOn [2]map[string]int     // the highest explicit value accepted per branch
+	pending := make([][][2]int, b.NSess) // per session: (table, value) generated in its open transaction
 	reset := func() {
 		for t := range seen {
 			seen[t] = map[int]gen{}
 			maxGen[t], maxExplicit[t] = 0, 0
+			explicitOn[t] = map[string]int{}
+		}
+		for i := range pending {
+			pending[i] = nil
 		}
 	}
+	ddl := [2]string{"CREATE TABLE ai0 (id INT PRIMARY KEY AUTO_INCREMENT, v INT)", "CREATE TABLE ai1 (id BIGINT PRIMARY KEY AUTO_INCREMENT, v INT, KEY (v))"}
 	reset()
 	high := func(t int) int { return max(maxGen[t], maxExplicit[t]) }
 	tag := 0
@@ -209,11 +226,66 @@ func (AI) Execute(t *testing.T, sc *core.Scenario) *core.Result {
 		case "commit":
 			s.Exec(ctx, "COMMIT")
 			explicit[i] = false
+			pending[i] = nil
 		case "rollback":
 			if _, err := s.Exec(ctx, "ROLLBACK"); err == nil {
 				res.Fault("rollback")
+				for _, tv := range pending[i] {
+					if g, ok := seen[tv[0]][tv[1]]; ok {
+						g.rolledBack = true
+						seen[tv[0]][tv[1]] = g
+					}
+				}
 			}
+			pending[i] = nil
 			explicit[i] = false
+		case "droptable":
+			// DROP TABLE on this branch re-derives the sequence from the branches that keep the table.
+			// What only the dropped table had (and what a rolled-back transaction was given) may come
+			// again; what the other branches were given - committed or in a transaction still open - may not.
+			s.Exec(ctx, "COMMIT")
+			explicit[i] = false
+			pending[i] = nil
+			if _, err := s.Exec(ctx, "DROP TABLE "+tbl); err != nil {
+				res.Probe("droptable_refused")
+				break
+			}
+			if !s.Autocommit {
+				s.Exec(ctx, "COMMIT")
+			}
+			res.Fault("drop-table-on-one-branch")
+			for j := range pending {
+				for _, tv := range pending[j] {
+					if g, ok := seen[tv[0]][tv[1]]; ok && tv[0] == op.T && g.branch != cur[i] {
+						g.openAtDrop = true
+						seen[tv[0]][tv[1]] = g
+						res.Probe("value_in_open_transaction_while_table_dropped_elsewhere")
+					}
+				}
+			}
+			maxGen[op.T] = 0
+			for v, g := range seen[op.T] {
+				if g.branch == cur[i] || g.rolledBack {
+					delete(seen[op.T], v)
+				} else {
+					maxGen[op.T] = max(maxGen[op.T], v)
+				}
+			}
+			delete(explicitOn[op.T], cur[i])
+			maxExplicit[op.T] = 0
+			for _, e := range explicitOn[op.T] {
+				maxExplicit[op.T] = max(maxExplicit[op.T], e)
+			}
+		case "createtable":
+			s.Exec(ctx, "COMMIT")
+			explicit[i] = false
+			pending[i] = nil
+			if _, err := s.Exec(ctx, ddl[op.T]); err == nil {
+				res.Fault("table-made-again")
+				if !s.Autocommit {
+					s.Exec(ctx, "COMMIT")
+				}
+			}
 		case "newbranch":
 			if _, err := s.Exec(ctx, "CALL dolt_branch('"+op.Br+"')"); err == nil {
 				res.Fault("new-branch")
@@ -222,6 +294,7 @@ func (AI) Execute(t *testing.T, sc *core.Scenario) *core.Result {
 			// finish the transaction first: checkout with pending changes is another subject
 			s.Exec(ctx, "COMMIT")
 			explicit[i] = false
+			pending[i] = nil
 			if _, err := s.Exec(ctx, "CALL dolt_checkout('"+op.Br+"')"); err == nil {
 				if cur[i] != op.Br {
 					res.Fault("branch-switch")
@@ -301,18 +374,31 @@ func (AI) Execute(t *testing.T, sc *core.Scenario) *core.Result {
 						maxExplicit[op.T] = id
 						res.Fault("explicit-value-above-sequence")
 					}
+					explicitOn[op.T][cur[i]] = max(explicitOn[op.T][cur[i]], id)
 					continue
 				}
 				generated++
+				// a violation that goes back to the recorded finding (DROP TABLE on another branch re-derives
+				// the sequence from what the remaining branches have persisted, which leaves out values
+				// held by transactions still open) is named as such
+				cause := func(g gen) string {
+					if g.openAtDrop {
+						return "cause=sequence-lowered-by-drop-table-under-open-transaction"
+					}
+					return "table=" + tbl
+				}
 				if prev, dup := seen[op.T][id]; dup {
-					res.Violate("auto-increment-value-handed-out-twice", "table="+tbl, step, "session %d on branch %s got id %d for %s, which session %d on branch %s was given at step %d in the same server lifetime", i, cur[i], id, tbl, prev.sess, prev.branch, prev.step)
+					res.Violate("auto-increment-value-handed-out-twice", cause(prev), step, "session %d on branch %s got id %d for %s, which session %d on branch %s was given at step %d in the same server lifetime", i, cur[i], id, tbl, prev.sess, prev.branch, prev.step)
 				} else if id <= maxGen[op.T] {
-					res.Violate("generated-value-not-increasing", "table="+tbl, step, "session %d on branch %s got id %d for %s after %d had already been generated", i, cur[i], id, tbl, maxGen[op.T])
+					res.Violate("generated-value-not-increasing", cause(seen[op.T][maxGen[op.T]]), step, "session %d on branch %s got id %d for %s after %d had already been generated", i, cur[i], id, tbl, maxGen[op.T])
 				} else if id <= maxExplicit[op.T] {
 					res.Violate("sequence-not-moved-past-explicit-value", "table="+tbl, step, "session %d on branch %s got id %d for %s although the explicit value %d had been inserted before (on some branch)", i, cur[i], id, tbl, maxExplicit[op.T])
 				}
-				seen[op.T][id] = gen{id, step, i, cur[i]}
+				seen[op.T][id] = gen{val: id, step: step, sess: i, branch: cur[i]}
 				maxGen[op.T] = max(maxGen[op.T], id)
+				if !s.Autocommit || explicit[i] {
+					pending[i] = append(pending[i], [2]int{op.T, id})
+				}
 				if lastBranch[op.T] != "" && lastBranch[op.T] != cur[i] {
 					crossBranch++
 				}
